@@ -4,6 +4,7 @@ package main
 
 import (
 	"fmt"
+	"os"
 	"go/ast"
 	"go/constant"
 	goparser "go/parser"
@@ -73,9 +74,13 @@ func (fc *FnCtx) resolveType(txt string, tpkg *types.Package) (types.Type, strin
 				}
 			}
 		}
-		_, ks := fc.resolveType(txt[5:i], tpkg)
-		_, vs := fc.resolveType(txt[i+1:], tpkg)
-		return nil, fmt.Sprintf("(Array %s %s)", ks, vs)
+		kt, ks := fc.resolveType(txt[5:i], tpkg)
+		vt, vs := fc.resolveType(txt[i+1:], tpkg)
+		var gt types.Type
+		if kt != nil && vt != nil {
+			gt = types.NewMap(kt, vt) // only carries the element type; the sort says it is a ghost (total) map
+		}
+		return gt, fmt.Sprintf("(Array %s %s)", ks, vs)
 	}
 	e, err := goparser.ParseExpr(txt)
 	if err != nil {
@@ -353,16 +358,19 @@ func (env *Env) ident(name string) TV {
 	}
 	if env.lookup != nil {
 		if tv, ok := env.lookup(name, env.cur); ok {
+			if os.Getenv("GOVC_DEBUG") != "" {
+				fmt.Fprintf(os.Stderr, "resolve %s -> %s (%s)\n", name, tv.T, tv.Sort)
+			}
 			return tv
 		}
 	}
 	if g, ok := fc.eng.Spec.Ghosts[name]; ok {
 		key := "G:" + name
+		gt, gs := fc.resolveType(g.Type, fc.pkgTypes(g.Pkg))
 		if _, ok := fc.compSort[key]; !ok {
-			_, s := fc.resolveType(g.Type, env.tpkg)
-			fc.compDecl(key, s)
+			fc.compDecl(key, gs)
 		}
-		return TV{fc.lookup(env.cur, key), fc.compSort[key], nil}
+		return TV{fc.lookup(env.cur, key), fc.compSort[key], gt}
 	}
 	if c, ok := fc.eng.Spec.Consts[name]; ok {
 		e, err := ParseExpr(c)
@@ -494,7 +502,10 @@ func isNilExpr(e Expr) bool { _, ok := e.(*ENil); return ok }
 func (env *Env) inOp(k, m TV) TV {
 	fc := env.fc
 	B := types.Typ[types.Bool]
-	if mt, ok := goUnder(m.Go).(*types.Map); ok {
+	if strings.HasPrefix(m.Sort, "(Array ") && strings.HasSuffix(m.Sort, " Bool)") {
+		return TV{fmt.Sprintf("(select %s %s)", m.T, k.T), "Bool", B}
+	}
+	if mt, ok := goUnder(m.Go).(*types.Map); ok && !strings.HasPrefix(m.Sort, "(Array ") {
 		_, md, _, _ := fc.mapComps(mt)
 		return TV{fmt.Sprintf("(and (not (= %s 0)) (select (select %s %s) %s))", m.T, fc.lookup(env.cur, md), m.T, k.T), "Bool", B}
 	}
@@ -510,6 +521,13 @@ func (env *Env) inOp(k, m TV) TV {
 func (env *Env) index(x, i TV) TV {
 	fc := env.fc
 	P := fc.P
+	if strings.HasPrefix(x.Sort, "(Array ") {
+		var et types.Type
+		if mt, ok := goUnder(x.Go).(*types.Map); ok {
+			et = mt.Elem()
+		}
+		return TV{fmt.Sprintf("(select %s %s)", x.T, i.T), arrayRange(x.Sort), et}
+	}
 	switch u := goUnder(x.Go).(type) {
 	case *types.Slice:
 		return TV{fmt.Sprintf("(at_%s %s %s)", x.Sort, x.T, i.T), P.SortOf(u.Elem()), u.Elem()}
